@@ -57,7 +57,7 @@ def run_check(ctx, mod, args):
             proof_broken = broken
             print("lean build FAILED: " + "; ".join("%s (%s:%s)" % (b["decl"], b["file"], b["line"]) for b in broken[:6]))
         else:
-            audit = core.lean_audit(mod.PROPS_FILE, mod.LEAN_TARGETS[0])
+            audit = core.lean_audit(mod.PROPS_FILE, mod.LEAN_TARGETS)
             hard = [p for p in audit["problems"] if not p.startswith("theorem ") or "uses axioms" in p]
             if hard:
                 raise core.MachineryError("audit: " + "; ".join(hard[:5]))
